@@ -108,9 +108,10 @@ class AstToDjangoQVisitor(visitor.NodeVisitor):
         full_id = owner.name + "__" + node.attr
         return F(full_id)
 
-    def visit_Null(self, node: ast.Null) -> str:
+    def visit_Null(self, node: ast.Null) -> Value:
         ":meta private:"
-        raise NotImplementedError("Should not be reached")
+        # NOTE: Comparisons to null are handled in `visit_Compare`.
+        return Value(None)
 
     def visit_Integer(self, node: ast.Integer) -> Value:
         ":meta private:"
